@@ -548,6 +548,21 @@ func setParentValueTWithVisited(
 	return false
 }
 
+// SetOwnValueT stores a value under the class's own key, without looking for
+// an inherited slot of the same name first (declarations of a configured
+// method belong to the class they are declared on).
+func SetOwnValueT(
+	frame string,
+	class string,
+	method string,
+	variable string,
+	t *T,
+	isStatic bool,
+) {
+
+	TFrame[valueTFrameKey(frame, class, method, variable, isStatic)] = t
+}
+
 func SetValueT(
 	frame string,
 	class string,
